@@ -113,7 +113,7 @@ pub fn expr_min(e: &J) -> String {
         "is" => format!("{} {} {}", wrap(&e["a"], l), if e["neg"].as_bool().unwrap() { "IS NOT" } else { "IS" }, wrap(&e["b"], l + 1)),
         "in" => format!("{} {} ({})", wrap(&e["a"], l), if e["neg"].as_bool().unwrap() { "NOT IN" } else { "IN" },
                         e["vs"].as_array().unwrap().iter().map(expr_min).collect::<Vec<_>>().join(", ")),
-        "neg" => format!("-{}", wrap(&e["a"], l)),
+        "neg" => { let inner = wrap(&e["a"], l); if inner.starts_with('-') { format!("- {}", inner) } else { format!("-{}", inner) } }      // (`--` would start a comment)
         "not" => format!("NOT {}", wrap(&e["a"], l)),
         "call" => {
             let f = e["f"].as_str().unwrap();
